@@ -159,12 +159,19 @@ pub fn decode_build_case(t: &mut Tape, x: &mut Tape, max_n: usize, cap: Option<u
         }
         if t.chance(1, 30) {
             let ty = t.below(n_types as usize) as u8;
-            if t.chance(1, 2) {
-                reads.push(ty);
-                writes.push(ty);
-            } else {
-                writes.push(ty);
-                writes.push(ty);
+            match t.below(3) {
+                0 => {
+                    reads.push(ty);
+                    writes.push(ty);
+                }
+                1 => {
+                    writes.push(ty);
+                    writes.push(ty);
+                }
+                _ => {
+                    reads.push(ty);
+                    reads.push(ty);
+                }
             }
         }
         fns.push(TestFn { id, reads, writes });
@@ -175,7 +182,67 @@ pub fn decode_build_case(t: &mut Tape, x: &mut Tape, max_n: usize, cap: Option<u
         pos.swap(i, j);
     }
     let mut edges = vec![];
-    if n >= 1 {
+    // "late attach": a multi-path pipeline is declared first, then a chain, then the
+    // chain's end is attached above the pipeline's start (one insertion that raises
+    // the rank of a whole declared sub-graph), then a few more edges.  Adversarial
+    // for anything that maintains ranks / reachability incrementally.
+    let late_attach = n >= 12 && t.chance(1, 3);
+    if late_attach {
+        // label[i] = function id of logical node i
+        let label: Vec<usize> = {
+            let mut l: Vec<usize> = (0..n).collect();
+            l.sort_by_key(|v| pos[*v]);
+            l
+        };
+        let chain_len = 3 + t.below((n / 3).max(1));
+        let mut next = chain_len; // logical ids: 0..chain_len = chain, rest = pipeline
+        let mut pipe: Vec<(usize, usize)> = vec![];
+        let mut step = next;
+        next += 1;
+        let first_step = step;
+        while next + 3 < n {
+            let to = next;
+            next += 1;
+            let paths = 1 + t.below(3);
+            let short_first = t.chance(1, 2);
+            let mut seg: Vec<(usize, usize)> = vec![(step, to)];
+            for k in 1..paths {
+                // a path of k intermediate "check" functions
+                let mut prev = step;
+                for _ in 0..k {
+                    if next >= n {
+                        break;
+                    }
+                    seg.push((prev, next));
+                    prev = next;
+                    next += 1;
+                }
+                seg.push((prev, to));
+            }
+            if !short_first {
+                seg.reverse();
+            }
+            pipe.extend(seg);
+            step = to;
+        }
+        let k = |t: &mut Tape| if t.chance(1, 2) { Kind::Contains } else { Kind::Logic };
+        for (a, b) in pipe {
+            if a != b {
+                edges.push((label[a], label[b], k(t)));
+            }
+        }
+        for i in 0..chain_len - 1 {
+            edges.push((label[i], label[i + 1], k(t)));
+        }
+        edges.push((label[chain_len - 1], label[first_step], k(t)));
+        for _ in 0..t.below(3) {
+            let a = t.below(n);
+            let b = t.below(n);
+            if a < b {
+                edges.push((label[a], label[b], k(t)));
+            }
+        }
+    } else if n >= 1 {
         let max_m = [n, n / 2, 2 * n, n * n.saturating_sub(1) / 2 + 2][t.below(4)];
         let m = t.below(max_m + 1);
         // fraction of calls that ignore the hidden order (cycle attempts, self edges)
@@ -938,6 +1005,23 @@ pub fn check_c17(case: &BuildCase, b: &Built, f: &BuildFacts) -> Vec<Violation> 
                         back.graph.raw_nodes().iter().map(|n| n.weight.clone()).collect();
                     if !(back == gi) || nodes_back != nodes || edges_of(&back) != got_edges {
                         out.push(v("C17", "json-roundtrip", format!("JSON round trip changed the value: {s}")));
+                    }
+                    // the deserialised value must behave like the original one
+                    let ids: Vec<usize> = back.iter().map(|n| n.id).collect();
+                    let mut o = vec![];
+                    check_order(&mut o, "deserialised GraphInfo::iter", &ids, f, false);
+                    let ids: Vec<usize> = back.iter_rev().map(|n| n.id).collect();
+                    check_order(&mut o, "deserialised GraphInfo::iter_rev", &ids, f, true);
+                    for mut x in o {
+                        x.prop = "C17".into();
+                        out.push(x);
+                    }
+                    let ids: Vec<(usize, usize)> = back
+                        .iter_insertion_with_indices()
+                        .map(|(i, n)| (i.index(), n.id))
+                        .collect();
+                    if ids != (0..n).map(|i| (i, i)).collect::<Vec<_>>() {
+                        out.push(v("C17", "insertion-order", format!("deserialised iter_insertion_with_indices gave {ids:?}")));
                     }
                 }
             },
